@@ -1609,6 +1609,8 @@ class Interp:
             return tuple(self.lit_value(x) for x in v)
         if isinstance(v, dict):
             return SDict({k: self.lit_value(x) for k, x in v.items()})
+        if isinstance(v, (set, frozenset)):
+            return SSet([self.lit_value(x) for x in v])
         return v
 
     def leaf_getter(self, t, name):
